@@ -27,6 +27,9 @@ FRESH_CALLS = {
     "to_etree", "groom", "ungroom", "Signature", "Parameter", "bind", "match", "search", "finditer", "groupdict", "decode", "encode", "read", "readline",
     "timedelta", "datetime", "time", "Decimal", "quantize", "strftime", "getLogger", "compile", "unescape", "escape", "super", "__init__",
 }
+# calls that return a NEW container / object whose members are still the argument's members: the result itself may
+# be changed freely, what is reached THROUGH it (find(), iteration, [i], .attr) is as shared as it was
+SHALLOW_CALLS = {"copy", "list", "dict", "set", "tuple", "sorted", "reversed", "frozenset"}
 ALIAS_CALLS = {"find", "findall", "iter", "iterfind", "get", "pop", "getattr", "next", "__getitem__", "getroot", "close", "end", "start"}
 CONSTRUCTION = {"__init__", "__new__", "__set_name__", "__init_subclass__", "__post_init__"}
 
@@ -67,6 +70,14 @@ def _callee_last(call: ast.Call) -> Optional[str]:
     return None
 
 
+def _derived(k: Tuple[str, str]) -> Tuple[str, str]:
+    """classification of an object REACHED THROUGH the object classified k"""
+    if k[0] == "fresh" and k[1].startswith("shallow-of:"):
+        _, kind, detail = k[1].split(":", 2)
+        return kind, detail
+    return k
+
+
 def classify_value(v, node: Node, ctx: Ctx, depth=8) -> Tuple[str, str]:
     """('fresh'|'param'|'self'|'cls'|'global'|'unknown', detail) for the object an expression denotes"""
     if depth <= 0:
@@ -76,9 +87,14 @@ def classify_value(v, node: Node, ctx: Ctx, depth=8) -> Tuple[str, str]:
     if isinstance(v, ast.Call):
         last = _callee_last(v)
         if last in ALIAS_CALLS and isinstance(v.func, ast.Attribute):
-            return classify_value(v.func.value, node, ctx, depth - 1)
+            return _derived(classify_value(v.func.value, node, ctx, depth - 1))
         if last == "getattr" and v.args:
-            return classify_value(v.args[0], node, ctx, depth - 1)
+            return _derived(classify_value(v.args[0], node, ctx, depth - 1))
+        if last in SHALLOW_CALLS and isinstance(v.func, ast.Name) and len(v.args) == 1 and not v.keywords:
+            src = _derived(classify_value(v.args[0], node, ctx, depth - 1))
+            if src[0] in ("param", "self", "cls", "global"):
+                return "fresh", f"shallow-of:{src[0]}:{src[1]}"
+            return "fresh", f"{last}()"
         if last in FRESH_CALLS:
             return "fresh", f"{last}()"
         # constructor of a repo class / cls(...)
@@ -96,7 +112,7 @@ def classify_value(v, node: Node, ctx: Ctx, depth=8) -> Tuple[str, str]:
                 return "fresh", f"{r.name}()"
         return "unknown", f"call {text(v.func)}"
     if isinstance(v, (ast.Attribute, ast.Subscript, ast.Starred)):
-        return classify_value(v.value, node, ctx, depth - 1)
+        return _derived(classify_value(v.value, node, ctx, depth - 1))
     if isinstance(v, ast.IfExp):
         a, b = classify_value(v.body, node, ctx, depth - 1), classify_value(v.orelse, node, ctx, depth - 1)
         return a if a[0] != "fresh" else b
@@ -144,11 +160,12 @@ def classify_name(name: str, node: Node, ctx: Ctx, depth=8) -> Tuple[str, str]:
             inner = d.value
             while isinstance(inner, ast.Call) and _callee_last(inner) in ("set", "list", "sorted", "reversed", "enumerate", "tuple", "iter") and inner.args:
                 inner = inner.args[0]
-            if isinstance(inner, ast.Call) and _callee_last(inner) in FRESH_CALLS and not (_callee_last(inner) in ("items", "values", "keys")):
+            if isinstance(inner, ast.Call) and _callee_last(inner) in FRESH_CALLS and not (_callee_last(inner) in ("items", "values", "keys")) and not (_callee_last(inner) in SHALLOW_CALLS):
                 k = ("fresh", "iterating a fresh collection")
             else:
-                # loop nodes: the iterable is evaluated at the loop header
-                k = classify_value(inner, dn, ctx, depth - 1)
+                # loop nodes: the iterable is evaluated at the loop header; the members of a shallow copy are the
+                # members of what was copied
+                k = _derived(classify_value(inner, dn, ctx, depth - 1))
         elif d.kind == "augassign":
             # `x += ...` keeps (or extends in place) whatever x was bound to before
             dn = ctx.cfg.node_of(d.stmt)
@@ -163,6 +180,8 @@ def classify_name(name: str, node: Node, ctx: Ctx, depth=8) -> Tuple[str, str]:
             k = ("unknown", d.kind)
         if rank[k[0]] > rank[worst[0]]:
             worst = k
+        elif k[0] == "fresh" and worst[0] == "fresh" and k[1].startswith("shallow-of:") and not worst[1].startswith("shallow-of:"):
+            worst = k  # a shallow copy is fresh itself, but what is reached through it is not: keep that fact
     return worst
 
 
